@@ -4,7 +4,6 @@ import (
 	"context"
 	"fmt"
 	"os"
-	"os/exec"
 	"sync"
 	"sync/atomic"
 
@@ -378,14 +377,10 @@ func (r *Replica) Abandon() { r.closed = true }
 
 // CrashImage byte-copies the data directory as the OS sees it now.
 func (r *Replica) CrashImage(tag string) (string, error) {
-	dst := NewScratchDir(tag)
-	_ = os.RemoveAll(dst)
-	out, err := exec.Command("cp", "-r", r.Dir, dst).CombinedOutput()
-	if err != nil {
-		return "", fmt.Errorf("cp: %v: %s", err, out)
-	}
-	// goleveldb LOCK files are advisory flocks held by the old process handle; a new open on the copy is independent.
-	return dst, nil
+	// goleveldb compacts in background goroutines: the copy is taken with StableCopy (accepted only when the directory
+	// listing is the same before and after). LOCK files are advisory flocks held by the old process handle; a new open
+	// on the copy is independent.
+	return StableCopy(r.Dir, tag)
 }
 
 // CloneIndex returns a copy of the replica's tx index (the node's tx_index.db at the crash point).
